@@ -1,5 +1,6 @@
 (* C01 — discrete-time offline evaluate() = rho, one pair per sample,
-   independent of the numeric time-stamps.  Property theorems only. *)
+   independent of the numeric time-stamps, for every formula: also for the
+   precedes[b,e] nodes pastify() creates.  Property theorems only. *)
 From Coq Require Import List Arith ZArith.
 From RV Require Import Val Syntax Rho Offline ListFacts OfflineCorrect ExtZ.
 Import ListNotations.
@@ -9,7 +10,7 @@ Import ListNotations.
 Theorem C01_rho :
   forall (VS : Val) (AR : Arith VS) (pk : formula -> formula -> pkind)
          (p : formula) (w : trace) (n : nat),
-    1 <= n -> wf_bounds p = true -> no_precedes p = true -> wf_trace p w n ->
+    1 <= n -> wf_bounds p = true -> wf_trace p w n ->
     eval_off AR pk p w n = tab (rho AR pk p w n) n.
 Proof. exact @eval_off_correct. Qed.
 Print Assumptions C01_rho.
@@ -19,7 +20,7 @@ Print Assumptions C01_rho.
 Theorem C01_evaluate :
   forall (VS : Val) (AR : Arith VS) (pk : formula -> formula -> pkind) (T : Type)
          (p : formula) (ts : list T) (w : trace),
-    1 <= length ts -> wf_bounds p = true -> no_precedes p = true -> wf_trace p w (length ts) ->
+    1 <= length ts -> wf_bounds p = true -> wf_trace p w (length ts) ->
     evaluate AR pk p ts w = Ok (combine ts (tab (rho AR pk p w (length ts)) (length ts))).
 Proof. exact @evaluate_correct. Qed.
 Print Assumptions C01_evaluate.
@@ -27,7 +28,7 @@ Print Assumptions C01_evaluate.
 Theorem C01_one_pair_per_sample :
   forall (VS : Val) (AR : Arith VS) (pk : formula -> formula -> pkind) (T : Type)
          (p : formula) (ts : list T) (w : trace) r,
-    1 <= length ts -> wf_bounds p = true -> no_precedes p = true -> wf_trace p w (length ts) ->
+    1 <= length ts -> wf_bounds p = true -> wf_trace p w (length ts) ->
     evaluate AR pk p ts w = Ok r -> map fst r = ts /\ length r = length ts.
 Proof. exact @evaluate_pairs. Qed.
 Print Assumptions C01_one_pair_per_sample.
@@ -40,9 +41,31 @@ Example C01_nonvacuous :
   let w1 := [[Fin 3]; [Fin (-2)]] in
   let w7 := [[Fin 3; Fin 0; Fin (-1); Fin 4; Fin 2; Fin 2; Fin (-5)];
              [Fin (-2); Fin 1; Fin 0; Fin 0; Fin 7; Fin (-3); Fin 1]] in
-  (1 <= 1 /\ wf_bounds p = true /\ no_precedes p = true /\ wf_trace p w1 1) /\
-  (1 <= 7 /\ wf_bounds p = true /\ no_precedes p = true /\ wf_trace p w7 7) /\
+  (1 <= 1 /\ wf_bounds p = true /\ wf_trace p w1 1) /\
+  (1 <= 7 /\ wf_bounds p = true /\ wf_trace p w7 7) /\
   eval_off ExtZArith (fun _ _ => PStd) p w7 7 = [Fin (-4); Fin (-1); Fin (-1); Fin (-1); Fin 3; Fin 3; Fin 4].
+Proof.
+  assert (W : forall (p : @formula ExtZVal) w n, nvars p = 2 ->
+              length (nth 0 w []) = n -> length (nth 1 w []) = n -> wf_trace p w n).
+  { intros p w n Hp H0 H1 x Hx. rewrite Hp in Hx.
+    destruct x as [|[|x]]; [exact H0|exact H1|]. exfalso.
+    apply PeanoNat.Nat.succ_lt_mono, PeanoNat.Nat.succ_lt_mono in Hx. inversion Hx. }
+  cbv zeta. repeat split; try reflexivity; try (apply W; reflexivity); repeat constructor.
+Qed.
+
+(* the same on a pastified specification: p is what pastify() makes of
+   ((x >= 1) until[1:2] y) until[0:1] (not x); the 7 values are those evaluate() returns for it *)
+Example C01_nonvacuous_precedes :
+  let p : @formula ExtZVal :=
+    Precedes 0 1 (Precedes 1 2 (Pred CGeq (Var 0) (Const (Fin 1))) (Var 1)) (OnceT 2 2 (Not (Var 0))) in
+  let w1 := [[Fin 3]; [Fin (-2)]] in
+  let w7 := [[Fin 3; Fin 0; Fin (-1); Fin 4; Fin 2; Fin 2; Fin (-5)];
+             [Fin (-2); Fin 1; Fin 0; Fin 0; Fin 7; Fin (-3); Fin 1]] in
+  (1 <= 1 /\ wf_bounds p = true /\ wf_trace p w1 1) /\
+  (1 <= 7 /\ wf_bounds p = true /\ wf_trace p w7 7) /\
+  no_precedes p = false /\
+  eval_off ExtZArith (fun _ _ => PStd) p w1 1 = tab (rho ExtZArith (fun _ _ => PStd) p w1 1) 1 /\
+  eval_off ExtZArith (fun _ _ => PStd) p w7 7 = [NegInf; NegInf; Fin (-3); Fin 0; Fin 0; Fin 1; Fin (-2)].
 Proof.
   assert (W : forall (p : @formula ExtZVal) w n, nvars p = 2 ->
               length (nth 0 w []) = n -> length (nth 1 w []) = n -> wf_trace p w n).
